@@ -75,8 +75,29 @@ def _gprov_of_local(self, l, depth=0):
                     if not any(x[0] == "local" for x in rr):
                         out |= set(_nf.subst(frozenset(rr), {i + 1: set(a) for i, a in enumerate(args)}))
                         continue
+                if f is not None and f.get("krate") == "chumsky" and not f.get("trait") and not f.get("self_ty") and nm in _ambiguous_free_fns(self.facts):
+                    # `text::ascii::ident` and `text::unicode::ident` are different grammars: a free function whose name exists in
+                    # several modules is named with its module
+                    segs = str(f.get("path", "")).split("::")
+                    if len(segs) >= 2:
+                        nm = "%s::%s" % (segs[-2], nm)
                 out.add(("call", nm, f.get("trait") if f else None, args))
     return out
+
+
+_AMBIG = {}
+
+
+def _ambiguous_free_fns(facts):
+    k = id(facts)
+    if k not in _AMBIG:
+        _AMBIG.clear()
+        paths = {}
+        for b in facts.bodies:
+            if b["kind"] == "Fn" and not b.get("impl_self") and not b.get("in_trait"):
+                paths.setdefault(b["name"], set()).add(b.get("path"))
+        _AMBIG[k] = {n for n, ps in paths.items() if len(ps) > 1}
+    return _AMBIG[k]
 
 
 _PVH = {}
@@ -696,7 +717,7 @@ def rule_grammar(facts, only=None, name="GRAMMAR", floor_key=None):
             ok = sorted(fold_builders(x, sh2) for x in got) == sorted(fold_builders(x, sh2) for x in want)
             if not ok:
                 import nf as _nf
-                ok = _nf.equal_up_to_renaming([fold_builders(x, sh2) for x in got], [fold_builders(x, sh2) for x in want])
+                ok = _nf.equal_up_to_renaming(list(got), list(want), canon=lambda x: fold_builders(x, sh2))
         r.ob(ok)
         if len(r.samples) < 4 and ("fn<" in " ".join(got)):
             r.samples.append({q: got})
